@@ -21,6 +21,7 @@ RULE = ('three aligned criteria columns A,B,C (rows 1-8) over {int, float, 0, ne
         'rejected by the criteria, or the ranges are mis-sized; distinct by (formula, valuation)')
 ASSUMPTIONS = ['vf/xlref criterion semantics = the clauses of the statement', 'booleans and dates are not placed in criteria ranges; text is not placed in the target range',
                'blank vs numeric criterion, numeric text vs number, boolean target cells: either reading accepted']
+HOST_SETTINGS = {'shards': lambda shards: [0, len(shards) - 1], 'env': {'VERIF_HOST_DECIMAL': '3'}}
 FLOORS = {'quick': {'evaluations': 8000, 'nontrivial': 3000}, 'thorough': {'evaluations': 250000, 'nontrivial': 100000}}
 
 TEXTS = ['apple', 'Apple', 'APPLE', 'pear', 'a.c', 'abc', 'a*b', 'a?c', '[x]', 'x+y', 'pine apple', 'ap']
